@@ -125,6 +125,7 @@ class SubTissues:
         self.ks = ks
         self.nes = nes
         self.bound = len(self.at["C"]) + 1
+        self.expand_outdom = True
 
     def initial(self):
         return [{"cells": [c], "k": k, "rs": None} for c in sorted(self.at["C"], key=int) for k in self.ks]
@@ -146,6 +147,8 @@ class SubTissues:
     def evaluate(self, d):
         import forsys.virtual_edges as ve
         sub = T.sub_tissue(self.at, d["cells"])
+        if self.base == "lens" and d["k"] == 0:
+            return {"key": "lens-k0|%s" % ",".join(d["cells"]), "viol": [], "tags": ["lens_k0_outside"], "cls": "lens-k0", "outdom": True}
         v, e, c, info = T.realise(sub, k=d["k"])
         tags = []
         if d["rs"] is not None:
@@ -194,10 +197,12 @@ def build(tier, seed):
     if tier == "quick":
         return [SubTissues("v5x4", [0, 1, 2, 5], [2, 6]),
                 SubTissues("square3x3", [0, 2], [2]),
+                SubTissues("lens", [1, 2, 4], [2, 3]),
                 SubTissues("v4x4p%d" % (seed + 1), [1, 3], [3])]
     return [SubTissues("v5x5", [0, 1, 2, 5, 15], [2, 6]),
             SubTissues("v6x5", [0, 2, 5], [2, 6]),
             SubTissues("brick4x3", [0, 1, 2], [2]),
             SubTissues("square3x3", [0, 1, 2, 5], [2, 6]),
             SubTissues("hex3x3", [0, 1, 3], [2, 6]),
+            SubTissues("lens", [1, 2, 3, 4, 7], [2, 3, 6]),
             SubTissues("v5x4p%d" % (seed + 1), [0, 1, 2, 5], [2, 6])]
